@@ -115,7 +115,11 @@ func readerProgram(r *Rng, meta GraphMeta, d Dialect, n int) []string {
 			from = meta.Funcs
 		}
 		add("%s = M.get(%q)\n", x, pick(from))
-		switch r.Intn(32) {
+		switch r.Intn(35) {
+		case 32, 33, 34:
+			// look every key of the shared table up again (by index, get, in)
+			add("attempt(lambda: probe([%s[k] for k in %s][:4], [%s.get(k) for k in list(%s)][-3:], [k in %s for k in list(%s)][:6]))\n", x, x, x, x, x, x)
+			add("attempt(lambda: probe([k in %s for k in list(%s)], %s == %s))\n", x, x, x, x)
 		case 25, 26:
 			// Go push iterators driven by the host over the shared value: full
 			// traversal, early exit, failing call-back
